@@ -161,6 +161,38 @@ pub fn execute_isolated<E: Engine>(trace: &E::Trace, run_seed: u64, init: Option
     }
 }
 
+/// Runs a closure in a forked child and returns its (serialisable) result; None if the child died.
+pub fn in_child<T: Serialize + DeserializeOwned>(f: impl FnOnce() -> T) -> Option<T> {
+    use std::io::{Read, Write};
+    use std::os::fd::FromRawFd;
+    let mut fds = [0i32; 2];
+    if unsafe { pipe(fds.as_mut_ptr()) } != 0 {
+        return None;
+    }
+    std::io::stdout().flush().ok();
+    let pid = unsafe { fork() };
+    if pid < 0 {
+        return None;
+    }
+    if pid == 0 {
+        let mut w = unsafe { std::fs::File::from_raw_fd(fds[1]) };
+        drop(unsafe { std::fs::File::from_raw_fd(fds[0]) });
+        if let Ok(v) = guarded(f) {
+            let _ = w.write_all(&serde_json::to_vec(&v).unwrap_or_default());
+        }
+        let _ = w.flush();
+        drop(w);
+        unsafe { _exit(0) }
+    }
+    drop(unsafe { std::fs::File::from_raw_fd(fds[1]) });
+    let mut r = unsafe { std::fs::File::from_raw_fd(fds[0]) };
+    let mut buf = Vec::new();
+    let _ = r.read_to_end(&mut buf);
+    let mut status = 0i32;
+    unsafe { waitpid(pid, &mut status, 0) };
+    serde_json::from_slice::<T>(&buf).ok()
+}
+
 fn run_one<E: Engine>(trace: &E::Trace, run_seed: u64, isolate: bool, init: Option<ChildInit>) -> Outcome {
     if isolate {
         execute_isolated::<E>(trace, run_seed, init)
